@@ -178,6 +178,27 @@ def cnvApplyCol (n resSize cnvOffset : Nat) (a b : Col) : Col :=
   let off := min cnvOffset bound
   (List.range resSize).map (fun k => if k < minSize then cnvCoeff n a b (k + off) else zeroP n)
 
+/-- `cnv_by_const_apply`: convolution of a limb column with per-limb integer constants, in the
+coefficient domain (big accumulator).  `wrap` is the accumulator's wrap (`w64` on FFT64 whose big
+scalar is `i64` with wrapping arithmetic, `w128` on NTT120). -/
+def cnvByConstCol (wrap : Int → Int) (n resSize cnvOffset : Nat) (a : Col) (b : List Int) : Col :=
+  if a.length = 0 ∨ b.length = 0 then List.replicate resSize (zeroP n)
+  else
+    let bound := a.length + b.length - 1
+    let minSize := min resSize bound
+    let off := min cnvOffset bound
+    (List.range resSize).map (fun k =>
+      if k < minSize then
+        let kk := k + off
+        if kk ≥ a.length + b.length then zeroP n
+        else
+          let jMin := kk - (a.length - 1)
+          let jMax := min (kk + 1) b.length
+          (sumPolys n ((List.range (jMax - jMin)).map (fun t =>
+            let j := jMin + t
+            polyScale (b.getD j 0) (limbOr0 n a (kk - j))))).map wrap
+      else zeroP n)
+
 def colAdd (n : Nat) (a b : Col) : Col :=
   (List.range (max a.length b.length)).map (fun j => polyAdd (limbOr0 n a j) (limbOr0 n b j))
 
@@ -226,6 +247,10 @@ def opCnvApply (off : Nat) (d : Buf) (dc : Nat) (l : Buf) (lc : Nat) (r : Buf) (
 def opCnvPairwise (off : Nat) (d : Buf) (dc : Nat) (l r : Buf) (i j : Nat) : Buf :=
   if i = j then opCnvApply off d dc l i r j
   else d.setAct dc (cnvApplyCol d.n d.size off (colAdd d.n (l.act i) (l.act j)) (colAdd d.n (r.act i) (r.act j)))
+
+/-- `cnv_by_const_apply(cnv_offset, res, res_col, a, a_col, b)` -/
+def opCnvByConst (wrap : Int → Int) (off : Nat) (d : Buf) (dc : Nat) (a : Buf) (ac : Nat) (b : List Int) : Buf :=
+  d.setAct dc (cnvByConstCol wrap d.n d.size off (a.act ac) b)
 
 /-- `cnv_prepare_left/right(res, a, mask)`: every column -/
 def opCnvPrepare (l : Buf) (x : Buf) (mask : Int) : Buf :=
